@@ -81,6 +81,52 @@ def run(tier, v):
     for fam, row in zip(fams, rows):
         if "panic" in row:
             v.violation({"part": "affinity", "frame": bytes(fam["frame"]).hex(), "observed": "panic: " + row["panic"]})
+    # ---- the identity as the crate's own packet parser sees it: whatever frame a crate's parser reads as TCP over IP, its dispatch hash
+    # must place by the identity read there (sender address / directed / undirected 4-tuple) -- parser and hash may not disagree about
+    # where the IP header starts.  Frames: the families above plus connections with independently drawn features under the three
+    # capture framings, frames behind link-layer headers the parsers do not know, and noise (lib/props/traffic.py)
+    from props import traffic, c10
+    ipid = [0]
+
+    def nid():
+        ipid[0] += 1
+        return ipid[0]
+    xframes = [bytes(f["frame"]) for f in fams]
+    for link in ("eth", "raw", "null", "bsd"):
+        for c in range(24 if tier == "thorough" else 10):
+            for fr in traffic.connection(rng, 1200 + c, ("http", "tls", "tcp")[c % 3], nid, maxpieces=3)["frames"]:
+                if link == "bsd":
+                    # the BSD loopback header with the address family in host order (AF_INET 2; AF_INET6 24 / 28): not a framing the
+                    # parsers know today -- if a parser reads it, its hash has to as well
+                    xframes.append((b"\x02\x00\x00\x00" if fr[12:14] == b"\x08\x00" else (b"\x18\x00\x00\x00", b"\x1c\x00\x00\x00")[c % 2]) + fr[14:])
+                else:
+                    xframes.append(c10.relink(fr, link))
+    xframes += traffic.unreadable(rng, nid, 36) + traffic.noise(rng, nid, 30)
+    xreq = os.path.join(wd, "hash2.req")
+    vlib.write_ndjson(xreq, [{"id": 0, "op": "hash", "ns": ns, "frames": [f.hex() for f in xframes]}])
+    xout = os.path.join(wd, "hash2.out")
+    vlib.run_hv("pool", xreq, xout)
+    xrows = next(vlib.read_ndjson(xout))["rows"]
+    n_seen = 0
+    with open(trace, "a") as f:
+        for crate in ("tcp", "http", "tls"):
+            for ni, n in enumerate(ns):
+                groups = {}
+                for fr, row in zip(xframes, xrows):
+                    if "panic" in row:
+                        continue
+                    idn = row["seen"][crate]
+                    if idn is None:
+                        continue
+                    if crate == "tls" and row[crate][ni] < 0:
+                        continue            # discarded by the tls pool (too short for its hash): no worker at all
+                    n_seen += ni == 0
+                    groups.setdefault(idn, set()).add(row[crate][ni])
+                f.write(json.dumps({"crate": crate, "n": n, "groups": [{"ident": "as parsed: " + k, "cls": "parser", "workers": sorted(ws)} for k, ws in sorted(groups.items())]}) + "\n")
+                n_rows += 1
+    for fr, row in zip(xframes, xrows):
+        if "panic" in row:
+            v.violation({"part": "affinity", "frame": fr.hex(), "observed": "panic: " + row["panic"]})
     r2 = vlib.tlc("TV_C18a", pid=PID, workers=8, env={"TRACE": trace}, timeout=1800, heap="10g")
     if tier == "thorough":
         def mut(rows):
@@ -95,6 +141,11 @@ def run(tier, v):
             if "D18_ihl_lt_5" in K:
                 v.known_hit("D18_ihl_lt_5", "the %s dispatch hash reads the ports at 4 x IHL: frames of one connection with an IPv4 header length below 5 go to other workers" % b["crate"])
                 continue
+        if b["cls"] == "parser" and "D10_raw_ethertype_lookalike" in K and any(a.startswith(("8.0.", "134.221.", "2001:db8:800:", "2001:db8:86dd:")) for a in b["ident"][len("as parsed: "):].replace("~", "|").replace(">", "|").split("|")):
+            # recorded finding: without a link-layer header, octets 12-13 of such a sender's frames read 08 00 / 86 dd; parser and hash both
+            # try the Ethernet framing first and fall back differently
+            v.known_hit("D10_raw_ethertype_lookalike", "raw-IP capture, sender address beginning 08 00 / 86 dd at frame offset 12 (e.g. 8.0.x.y, 134.221.x.y): the packet parser and the %s dispatch hash disagree about the framing of some of the connection's frames" % b["crate"])
+            continue
         if key in seen_bad:
             continue
         seen_bad.add(key)
